@@ -1,3 +1,335 @@
-import PybtexModel.Model.Basic
+/-
+C04 — personal names are split into first / von / last / jr parts as BibTeX does.
+
+Property theorems only; helper lemmas are in `Lemmas/Names.lean`, the model of the code
+(`Person.__init__`, `Person._parse_string` and its local helpers) in `Model/Names.lean`, the
+rule a reader has to agree with in `Spec/Names.lean` (`Spec.split`, `Spec.vonLast`,
+`Spec.tokenCase`/`Spec.isLow`, and the two hypotheses-vocabulary definitions `Spec.caseTokens`
+— the tokens whose case the rule examines — and `Spec.caseKnown` — the token scans within the
+brace-nesting limit, or starts with an ASCII capital).  Tokenisation and comma splitting are
+the C12 primitives `splitTex .space` / `splitTex .comma`.
+
+`parseName` is `_parse_string` on the stripped argument (`mkPerson` strips and calls it only
+for a non-empty result, as `Person.__init__` does).
+-/
+import PybtexModel.Lemmas.Names
+
 namespace Pybtex.Props
+open Pybtex Spec Names
+
+/-! ### witnesses used by the non-vacuity examples -/
+
+/-- "Charles Louis Xavier Joseph de la Vall{\'e}e Poussin" -/
+def nameVP : Str := "Charles Louis Xavier Joseph de la Vall{\\'e}e Poussin".toList
+/-- "von Beethoven, Jr, Ludwig" -/
+def nameVB : Str := "von Beethoven, Jr, Ludwig".toList
+/-- `a{{…{}…}} B` with 101 nested braces: the first token starts with a lower-case letter and
+does not scan within the nesting limit. -/
+def nameDeepLower : Str :=
+  'a' :: (List.replicate 101 '{' ++ List.replicate 101 '}' ++ " B".toList)
+/-- `{{…{}…}} B` with 101 nested braces: the first token has to be scanned and is too deep. -/
+def nameDeep : Str := List.replicate 101 '{' ++ List.replicate 101 '}' ++ " B".toList
+
+/-! ### 1. the model is the BibTeX rule -/
+
+/-- `_parse_string` computes exactly the BibTeX split, for every non-empty string all of
+whose case-deciding tokens have a decidable case (they scan within the nesting limit or start
+with a capital; `is_von_name` does not even look further in the latter case). -/
+theorem C04_matches_spec (name : Str) (hne : name ≠ [])
+    (hk : ∀ t ∈ Spec.caseTokens name, Spec.caseKnown t = true) :
+    parseName name = .ok (Spec.split name) := by
+  cases h : parseName name with
+  | error e =>
+    obtain ⟨_, t, ht, _, hc⟩ := parseName_error hne h
+    rw [hk t ht] at hc; cases hc
+  | ok r =>
+    rw [split_eq, parseName_ok h (fun t ht b hb => isVonName_ok hb (hk t ht))]
+
+theorem C04_matches_spec_nonvacuous :
+    (nameVP ≠ [] ∧ ∀ t ∈ Spec.caseTokens nameVP, Spec.caseKnown t = true) ∧
+    parseName nameVP = .ok
+      ({ first := ["Charles".toList], middle := ["Louis".toList, "Xavier".toList, "Joseph".toList],
+         prelast := ["de".toList, "la".toList],
+         last := ["Vall{\\'e}e".toList, "Poussin".toList], lineage := [] }, false) ∧
+    (nameVB ≠ [] ∧ ∀ t ∈ Spec.caseTokens nameVB, Spec.caseKnown t = true) ∧
+    parseName nameVB = .ok
+      ({ first := ["Ludwig".toList], middle := [], prelast := ["von".toList],
+         last := ["Beethoven".toList], lineage := ["Jr".toList] }, false) := by
+  decide
+
+/-- The same with the plain hypothesis "every case-deciding token scans". -/
+theorem C04_matches_spec_of_scan (name : Str) (hne : name ≠ [])
+    (hs : ∀ t ∈ Spec.caseTokens name, (scan t).isSome = true) :
+    parseName name = .ok (Spec.split name) :=
+  C04_matches_spec name hne (fun t ht => caseKnown_of_scan (hs t ht))
+
+theorem C04_matches_spec_of_scan_nonvacuous :
+    nameVP ≠ [] ∧ ∀ t ∈ Spec.caseTokens nameVP, (scan t).isSome = true := by decide
+
+/-- Whenever `_parse_string` succeeds, its result is the rule's split computed with
+"`is_von_name` answers yes" as the lower-case test — no hypothesis on the string. -/
+theorem C04_matches_rule_any (name : Str) (r : Person × Bool) (h : parseName name = .ok r) :
+    r = splitWith isVonB name :=
+  parseName_ok h (fun t _ b hb => by simp [isVonB, hb])
+
+theorem C04_matches_rule_any_nonvacuous : ∃ r, parseName nameVB = .ok r := ⟨_, by decide⟩
+
+/-- The hypothesis of `C04_matches_spec` cannot be dropped for tokens that start with a
+lower-case letter: `is_von_name` answers "lower-case" from the first character alone, while the
+rule gives no case to a token nested deeper than the limit.  (Success alone does not imply
+agreement with `Spec.split`.) -/
+theorem C04_matches_spec_neg :
+    (∃ r, parseName nameDeepLower = .ok r ∧ r ≠ Spec.split nameDeepLower) ∧
+    (∀ t ∈ Spec.caseTokens nameDeepLower,
+      (match t with | c :: _ => isAlpha c | [] => false) = true ∨ (scan t).isSome = true) := by
+  refine ⟨?_, by decide +kernel⟩
+  cases h : parseName nameDeepLower with
+  | error e => revert h; decide +kernel
+  | ok r => exact ⟨r, rfl, by rw [← Except.ok.injEq (ε := NameErr), ← h]; decide +kernel⟩
+
+/-- Case of one token: for a non-empty token whose case is decidable `is_von_name` is the
+rule's "the token is lower-case" (first brace-level-0 letter, or first letter after the
+control sequence of a special character that comes first). -/
+theorem C04_case_of_token (t : Str) (hne : t ≠ []) (hk : Spec.caseKnown t = true) :
+    isVonName t = .ok (Spec.isLow t) :=
+  isVonName_eq_isLow hne hk
+
+theorem C04_case_of_token_nonvacuous :
+    let t := "{\\'e}cole".toList
+    t ≠ [] ∧ Spec.caseKnown t = true ∧ Spec.isLow t = true ∧
+    Spec.isLow "{\\'E}cole".toList = false ∧ Spec.isLow "{\\relax von}".toList = true := by
+  decide
+
+/-! ### 2. totality -/
+
+/-- `_parse_string` on a non-empty string never raises `IndexError`/`ValueError`: it returns a
+person, reporting "too many commas" exactly when there are more than three comma parts, or it
+raises `too many nested braces`, and then one of the case-deciding tokens does not scan. -/
+theorem C04_total (name : Str) (hne : name ≠ []) :
+    (∃ p, parseName name = .ok (p, decide ((splitTex .comma name).length > 3))) ∨
+    (parseName name = .error .tooDeep ∧
+      ∃ t ∈ Spec.caseTokens name, scan t = none ∧ Spec.caseKnown t = false) := by
+  cases h : parseName name with
+  | error e =>
+    obtain ⟨he, ht⟩ := parseName_error hne h
+    subst he
+    exact Or.inr ⟨rfl, ht⟩
+  | ok r =>
+    left
+    have := C04_matches_rule_any name r h
+    refine ⟨r.1, ?_⟩
+    rw [← splitWith_tooMany isVonB name, ← this]
+
+theorem C04_total_nonvacuous :
+    parseName "a, b, c, d e".toList = .ok
+      ({ first := ["c".toList], middle := ["d".toList, "e".toList], prelast := [],
+         last := ["a".toList], lineage := ["b".toList] }, true) ∧
+    parseName "~".toList = .ok ({}, false) ∧
+    parseName nameDeep = .error .tooDeep := by
+  decide +kernel
+
+/-- `Person(string, first, middle, prelast, last, lineage)` for ANY six strings: a person, or
+`too many nested braces` from a token of the stripped, non-empty `string`. -/
+theorem C04_total_person (s f m p l j : Str) :
+    (∃ P b, mkPerson s f m p l j = .ok (P, b)) ∨
+    (mkPerson s f m p l j = .error .tooDeep ∧ strip s ≠ [] ∧
+      ∃ t ∈ Spec.caseTokens (strip s), scan t = none ∧ Spec.caseKnown t = false) := by
+  cases h : mkPerson s f m p l j with
+  | ok r => exact Or.inl ⟨r.1, r.2, rfl⟩
+  | error e =>
+    obtain ⟨he, hne, hp⟩ := mkPerson_error h
+    subst he
+    exact Or.inr ⟨rfl, hne, (parseName_error hne hp).2⟩
+
+/-- the tokens `_parse_string` works with are never empty; a non-empty string has a comma part -/
+theorem C04_tokens_nonempty (s : Str) :
+    (∀ t ∈ splitTex .space s, t ≠ []) ∧ (s ≠ [] → splitTex .comma s ≠ []) :=
+  ⟨fun _ ht => splitTex_space_ne_nil ht, splitTex_comma_ne_nil⟩
+
+/-! ### 3. nothing lost, duplicated or reordered -/
+
+/-- On success: without a comma the four name lists concatenate to the tokens of the string;
+with commas von+Last are the tokens of the first part, Jr those of the second (none when there
+are two parts), First those of the last part — for more than three parts the remaining parts
+joined by blanks.  `first_names` is the first token of First. -/
+theorem C04_tokens_preserved (name : Str) (p : Person) (b : Bool)
+    (h : parseName name = .ok (p, b)) :
+    p.first = (p.first ++ p.middle).take 1 ∧
+    match splitTex .comma name with
+    | [] => False
+    | [_] => p.first ++ p.middle ++ p.prelast ++ p.last = splitTex .space name ∧ p.lineage = []
+    | [p0, pl] =>
+      p.prelast ++ p.last = splitTex .space p0 ∧ p.lineage = [] ∧
+      p.first ++ p.middle = splitTex .space pl
+    | p0 :: p1 :: rest =>
+      p.prelast ++ p.last = splitTex .space p0 ∧ p.lineage = splitTex .space p1 ∧
+      p.first ++ p.middle = splitTex .space (joinWith [' '] rest) := by
+  have hr := C04_matches_rule_any name _ h
+  have hne : name ≠ [] := by
+    rintro rfl; revert h; decide
+  have h1 := splitWith_first isVonB name
+  have h2 := splitWith_tokens isVonB name
+  rw [← hr] at h1 h2
+  refine ⟨h1, ?_⟩
+  have hc := splitTex_comma_ne_nil hne
+  revert h2 hc
+  cases splitTex .comma name with
+  | nil => intro _ hc; exact hc rfl
+  | cons a r => intro h2 _; exact h2
+
+theorem C04_tokens_preserved_nonvacuous :
+    (∃ p b, parseName nameVP = .ok (p, b)) ∧ (∃ p b, parseName nameVB = .ok (p, b)) ∧
+    (∃ p, parseName "a, b, c, d e".toList = .ok (p, true)) := by
+  refine ⟨⟨_, _, ?_⟩, ⟨_, _, ?_⟩, ⟨_, ?_⟩⟩
+  · exact C04_matches_spec_nonvacuous.2.1
+  · exact C04_matches_spec_nonvacuous.2.2.2
+  · exact C04_total_nonvacuous.1
+
+/-! ### 4. the von part -/
+
+/-- von is the longest run that ends with a lower-case token and still leaves a last name (all
+three forms): the von/Last boundary is the rule's; no lower-case token is left in Last before
+its final token; von, when present, ends with a lower-case token; Last is not empty unless
+there is no von-Last token at all; a lower-case token before the final one forces a von part. -/
+theorem C04_von_longest (name : Str) (p : Person) (b : Bool)
+    (hk : ∀ t ∈ Spec.caseTokens name, Spec.caseKnown t = true)
+    (h : parseName name = .ok (p, b)) :
+    (p.prelast, p.last) = Spec.vonLast (p.prelast ++ p.last) ∧
+    (∀ t ∈ p.last.dropLast, Spec.isLow t = false) ∧
+    (p.prelast ≠ [] → ∃ t, p.prelast.getLast? = some t ∧ Spec.isLow t = true) ∧
+    (p.prelast ++ p.last ≠ [] → p.last ≠ []) ∧
+    ((∃ t ∈ (p.prelast ++ p.last).dropLast, Spec.isLow t = true) → p.prelast ≠ []) := by
+  have hr : (p, b) = splitWith isLow name :=
+    parseName_ok h (fun t ht b hb => isVonName_ok hb (hk t ht))
+  have hv := splitWith_vonLast isLow name
+  rw [← hr] at hv
+  simp only [] at hv
+  have hp := vonLastWith_props isLow (p.prelast ++ p.last)
+  rw [← hv] at hp
+  exact ⟨by rw [vonLast_eq]; exact hv, hp.1, hp.2.1, hp.2.2.1, hp.2.2.2.1⟩
+
+theorem C04_von_longest_nonvacuous :
+    (∀ t ∈ Spec.caseTokens nameVP, Spec.caseKnown t = true) ∧
+    (∃ p b, parseName nameVP = .ok (p, b) ∧ p.prelast ≠ [] ∧
+      ∃ t ∈ (p.prelast ++ p.last).dropLast, Spec.isLow t = true) :=
+  ⟨C04_matches_spec_nonvacuous.1.2, _, _, C04_matches_spec_nonvacuous.2.1, by decide, by decide⟩
+
+/-- No-comma form ("First von Last"): no token of First is lower-case; von, when present,
+starts with a lower-case token (the first one of the name); a lower-case token before the
+final token forces a von part. -/
+theorem C04_case_rule (name : Str) (p : Person) (b : Bool) (a : Str)
+    (hp : splitTex .comma name = [a])
+    (hk : ∀ t ∈ splitTex .space name, Spec.caseKnown t = true)
+    (h : parseName name = .ok (p, b)) :
+    (∀ t ∈ p.first ++ p.middle, Spec.isLow t = false) ∧
+    (p.prelast ≠ [] → ∃ t, p.prelast.head? = some t ∧ Spec.isLow t = true) ∧
+    ((∃ t ∈ (splitTex .space name).dropLast, Spec.isLow t = true) → p.prelast ≠ []) := by
+  have hk' : ∀ t ∈ Spec.caseTokens name, Spec.caseKnown t = true := by
+    simpa [Spec.caseTokens, hp] using hk
+  have hr : (p, b) = splitWith isLow name :=
+    parseName_ok h (fun t ht b hb => isVonName_ok hb (hk' t ht))
+  have := splitWith_one isLow name a hp
+  rw [← hr] at this
+  exact this
+
+theorem C04_case_rule_nonvacuous :
+    splitTex .comma nameVP = [nameVP] ∧
+    (∀ t ∈ splitTex .space nameVP, Spec.caseKnown t = true) ∧
+    (∃ p b, parseName nameVP = .ok (p, b) ∧ p.first ++ p.middle ≠ [] ∧ p.prelast ≠ []) :=
+  ⟨by decide, by decide, _, _, C04_matches_spec_nonvacuous.2.1, by decide, by decide⟩
+
+/-! ### 5. explicit part arguments -/
+
+/-- `Person(first=…, middle=…, prelast=…, last=…, lineage=…)`: every explicit part is
+tokenised by the same `splitTex .space`; after a string they are appended to its parts. -/
+theorem C04_parts_same_tokenisation (f m p l j : Str) :
+    mkPerson [] f m p l j = .ok
+      ({ first := splitTex .space f, middle := splitTex .space m, prelast := splitTex .space p,
+         last := splitTex .space l, lineage := splitTex .space j }, false) ∧
+    ∀ s P b, mkPerson s f m p l j = .ok (P, b) →
+      ∃ p0, (if strip s ≠ [] then parseName (strip s) = .ok (p0, b) else p0 = {} ∧ b = false) ∧
+        P = { first := p0.first ++ splitTex .space f, middle := p0.middle ++ splitTex .space m,
+              prelast := p0.prelast ++ splitTex .space p, last := p0.last ++ splitTex .space l,
+              lineage := p0.lineage ++ splitTex .space j } := by
+  constructor
+  · simp [mkPerson, strip, rstrip, lstrip]
+  · intro s P b h
+    unfold mkPerson at h
+    simp only [] at h
+    split at h
+    · cases h
+    · rename_i p0 r hb
+      cases h
+      refine ⟨p0, ?_, rfl⟩
+      split at hb
+      · rename_i hne; rw [if_pos hne]; exact hb
+      · rename_i hne; rw [if_neg hne]; cases hb; exact ⟨rfl, rfl⟩
+
+theorem C04_parts_same_tokenisation_nonvacuous :
+    mkPerson "Ludwig".toList [] "van der".toList [] "Beethoven~{Jr {III}}".toList [] [] = .ok
+      ({ first := ["Ludwig".toList], middle := ["van".toList, "der".toList], prelast := [],
+         last := ["Beethoven".toList, "{Jr {III}}".toList], lineage := [] }, false) := by
+  decide
+
+/-! ### 6. braced groups are never split (reduction to C12) -/
+
+/-- Every returned token is a non-empty token of `splitTex .space s`, where `s` is the name
+itself (no-comma form), one of its first two comma parts, or the remaining comma parts joined
+by blanks.  Hence whatever C12 proves about the tokens of `splitTex .space` (contiguous,
+brace-balanced pieces; braced groups atomic) holds for every name part. -/
+theorem C04_braces_atomic (name : Str) (p : Person) (b : Bool)
+    (h : parseName name = .ok (p, b)) :
+    ∀ t ∈ p.first ++ p.middle ++ p.prelast ++ p.last ++ p.lineage,
+      t ≠ [] ∧
+      ∃ s, (s = name ∨ s ∈ (splitTex .comma name).take 2 ∨
+            s = joinWith [' '] ((splitTex .comma name).drop 2)) ∧ t ∈ splitTex .space s := by
+  have hp := (C04_tokens_preserved name p b h).2
+  have key : ∀ t ∈ p.first ++ p.middle ++ p.prelast ++ p.last ++ p.lineage,
+      ∃ s, (s = name ∨ s ∈ (splitTex .comma name).take 2 ∨
+            s = joinWith [' '] ((splitTex .comma name).drop 2)) ∧ t ∈ splitTex .space s := by
+    intro t ht
+    revert hp
+    cases hc : splitTex .comma name with
+    | nil => intro hp; exact hp.elim
+    | cons a r =>
+      cases r with
+      | nil =>
+        intro hp
+        simp only [] at hp
+        refine ⟨name, Or.inl rfl, ?_⟩
+        rw [hp.2, List.append_nil, hp.1] at ht
+        exact ht
+      | cons c r' =>
+        cases r' with
+        | nil =>
+          intro hp
+          simp only [] at hp
+          rw [hp.2.1, List.append_nil] at ht
+          have : t ∈ (p.prelast ++ p.last) ++ (p.first ++ p.middle) := by
+            simp only [List.mem_append] at ht ⊢; tauto
+          rw [hp.1, hp.2.2] at this
+          rcases List.mem_append.mp this with h1 | h1
+          · exact ⟨a, Or.inr (Or.inl (by simp)), h1⟩
+          · exact ⟨c, Or.inr (Or.inl (by simp)), h1⟩
+        | cons d r'' =>
+          intro hp
+          simp only [] at hp
+          have : t ∈ (p.prelast ++ p.last) ++ p.lineage ++ (p.first ++ p.middle) := by
+            simp only [List.mem_append] at ht ⊢; tauto
+          rw [hp.1, hp.2.1, hp.2.2] at this
+          rcases List.mem_append.mp this with h1 | h1
+          · rcases List.mem_append.mp h1 with h1 | h1
+            · exact ⟨a, Or.inr (Or.inl (by simp)), h1⟩
+            · exact ⟨c, Or.inr (Or.inl (by simp)), h1⟩
+          · exact ⟨_, Or.inr (Or.inr rfl), by simpa using h1⟩
+  intro t ht
+  obtain ⟨s, hs, hts⟩ := key t ht
+  exact ⟨splitTex_space_ne_nil hts, s, hs, hts⟩
+
+theorem C04_braces_atomic_nonvacuous :
+    parseName "{von Last}, {Jr, III}, First~{de la}".toList = .ok
+      ({ first := ["First".toList], middle := ["{de la}".toList], prelast := [],
+         last := ["{von Last}".toList], lineage := ["{Jr, III}".toList] }, false) := by
+  decide
+
 end Pybtex.Props
